@@ -336,6 +336,69 @@ impl<A: Canon, B: Canon> Canon for DomPair<A, B> {
         DomPair::new(A::from_json(&v[0]), B::from_json(&v[1]))
     }
 }
+// ---- tombstone lattices and union-find (hash-backed; models Lattice/Tomb.v, Lattice/UF.v)
+// values: SetTomb = [live, tomb]; MapTomb = [[[k, v]..], tomb]; UF = [[k, parent]..]
+type STomb = lattices::set_union_with_tombstones::SetUnionWithTombstones<HashSet<K>, HashSet<K>>;
+type MTomb<V> = lattices::map_union_with_tombstones::MapUnionWithTombstones<HashMap<K, V>, HashSet<K>>;
+type UFH = lattices::union_find::UnionFindHashMap<K>;
+
+fn sorted_keys(s: &HashSet<K>) -> Vec<K> {
+    let mut v: Vec<K> = s.iter().copied().collect();
+    v.sort();
+    v
+}
+fn keys_from(v: &Value) -> HashSet<K> {
+    v.as_array().unwrap().iter().map(|x| num(x) as K).collect()
+}
+impl Canon for STomb {
+    fn name() -> String {
+        "SetTomb".into()
+    }
+    fn to_json(&self) -> Value {
+        let (s, t) = self.as_reveal_ref();
+        json!([sorted_keys(s), sorted_keys(t)])
+    }
+    fn from_json(v: &Value) -> Self {
+        STomb::new(keys_from(&v[0]), keys_from(&v[1]))
+    }
+}
+impl<V: Canon> Canon for MTomb<V> {
+    fn name() -> String {
+        format!("(MapTomb {})", V::name())
+    }
+    fn to_json(&self) -> Value {
+        let (m, t) = self.as_reveal_ref();
+        let mut e: Vec<(K, &V)> = m.iter().map(|(k, v)| (*k, v)).collect();
+        e.sort_by_key(|(k, _)| *k);
+        json!([Value::Array(e.into_iter().map(|(k, v)| json!([k, v.to_json()])).collect()), sorted_keys(t)])
+    }
+    fn from_json(v: &Value) -> Self {
+        MTomb::new(
+            v[0].as_array().unwrap().iter().map(|kv| (num(&kv[0]) as K, V::from_json(&kv[1]))).collect(),
+            keys_from(&v[1]),
+        )
+    }
+}
+impl Canon for UFH {
+    fn name() -> String {
+        "UF".into()
+    }
+    fn to_json(&self) -> Value {
+        let mut e: Vec<(K, K)> = self.as_reveal_ref().iter().map(|(k, p)| (*k, p.get())).collect();
+        e.sort();
+        json!(e)
+    }
+    fn from_json(v: &Value) -> Self {
+        UFH::new(
+            v.as_array()
+                .unwrap()
+                .iter()
+                .map(|kv| (num(&kv[0]) as K, std::cell::Cell::new(num(&kv[1]) as K)))
+                .collect(),
+        )
+    }
+}
+
 impl<T: Canon> Canon for VecUnion<T> {
     fn name() -> String {
         format!("(Vec {})", T::name())
@@ -571,6 +634,10 @@ fn registry() -> Registry {
         DomPair<Max<u64>, DomPair<Max<u8>, SH>>, DomPair<SH, Max<u8>>, DomPair<(), SH>,
         VecUnion<Max<u8>>, VecUnion<SH>, VecUnion<WithBot<Max<u8>>>, VecUnion<MH<Max<u8>>>, VecUnion<VecUnion<Max<u8>>>,
         VecUnion<Pair<Max<u8>, SH>>, VecUnion<Conflict<K>>, VecUnion<WithTop<SH>>, VecUnion<()>,
+        // tombstone lattices and union-find, alone and nested
+        STomb, MTomb<Max<u8>>, MTomb<SH>, UFH,
+        MH<STomb>, MH<UFH>, WithBot<MTomb<Max<u8>>>, WithTop<STomb>, Pair<SH, UFH>, Pair<STomb, MTomb<Max<u8>>>,
+        VecUnion<STomb>, DomPair<Max<u8>, STomb>, MTomb<STomb>, MTomb<UFH>, MTomb<WithBot<SH>>,
     );
     r
 }
